@@ -98,7 +98,7 @@ def build(release=False, mode="dyn"):
 STRACE_SYSCALLS = "mmap,munmap,clone,clone3,set_tid_address,exit,exit_group"
 
 
-def run_probe(chk, bindir, name, script, strace=False, inject=None, timeout=120, cpus=None):
+def run_probe(chk, bindir, name, script, strace=False, inject=None, timeout=120, cpus=None, trace=None):
     """Run the probe on `script` (list of lines).  A hang of the probe process itself (beyond its
     own watchdog) is data too: the process is killed and the run is marked `killed`."""
     d = os.path.join(chk.work, "runs")
@@ -113,7 +113,8 @@ def run_probe(chk, bindir, name, script, strace=False, inject=None, timeout=120,
             os.unlink(p)
     cmd = [os.path.join(bindir, "thrprobe"), sp, op]
     if strace:
-        pre = ["strace", "-f", "-o", tp, "-e", "trace=" + STRACE_SYSCALLS]
+        # trace="all": every system call, with enough of write()'s buffer to recognise the probe's events
+        pre = ["strace", "-f", "-o", tp, "-e", "trace=" + (trace or STRACE_SYSCALLS)] + (["-s", "160"] if trace else [])
         if inject:
             pre += ["-e", "inject=" + inject]
         cmd = pre + cmd
@@ -276,7 +277,11 @@ def thread_summary(recs, by_pid, clone_rec, base, size):
         if r["call"] == "+exited":
             break
     calls = [r for r in inst if not r["call"].startswith("+")]
-    own = [r for r in calls if r["call"] == "munmap" and _overlaps(r, base, size)]
+    mm = [r for r in calls if r["call"] == "munmap" and _overlaps(r, base, size)]
+    # a munmap that an injected fault made fail releases nothing: the stack stays mapped as the planned
+    # consequence of that fault
+    planned = [r for r in mm if "INJECTED" in (r.get("note") or "")]
+    own = [r for r in mm if r not in planned]
     whole = bool(own) and _hex(own[0]["args"].split(",")[0]) == base and int(own[0]["args"].split(",")[1]) == size
     last = False
     if own:
@@ -290,7 +295,7 @@ def thread_summary(recs, by_pid, clone_rec, base, size):
             foreign += 1
     exited = any(r["call"] == "+exited" for r in inst)
     return {"child": child, "own": len(own), "whole": whole, "last": last, "disarmed": disarmed,
-            "foreign": foreign, "exited": exited, "ncalls": len(calls)}
+            "foreign": foreign, "exited": exited, "ncalls": len(calls), "planned_leak": len(planned)}
 
 
 def _overlaps(r, base, size):
@@ -645,7 +650,15 @@ def normalise(run):
     # ---- end events
     quiet = not (info["abort"] or info["timeout"] or run.killed or info["crash"])
     for t in order:
-        if t.sys is not None and (t.sys["exited"] or quiet):
+        if t.stack_known and "stack" not in t.addr:
+            # the spawner mapped a stack (strace) but left spawn before announcing it
+            emit(t, {"e": "acq", "r": "stack"})
+        if t.sys is not None and t.sys.get("planned_leak"):
+            # injected failure of the thread's own stack munmap: the mapping stays, by plan of the fault
+            info["planned_stack_leaks"] = info.get("planned_stack_leaks", 0) + 1
+            emit(t, {"e": "texit", "flag": False})
+            t.stack_known = False
+        elif t.sys is not None and (t.sys["exited"] or quiet):
             # (a thread that was still alive when the run was cut short has no complete record)
             s = t.sys
             if s["own"] >= 1:
@@ -778,16 +791,22 @@ def attach_strace(run, order, info, batches):
             s = thread_summary(recs, by_pid, t.clone_rec, base, ssz)
             if s is not None:
                 t.sys = s
-                if s["own"] >= 1 and s["whole"]:
+                if (s["own"] >= 1 and s["whole"]) or s.get("planned_leak"):
                     live_stacks -= 1
         if s is None:
             # no thread came out of this spawn: did the spawner itself unmap the stack again?
             nxt = hrecs[hi][1]["pos"] if hi < len(hrecs) else 10**12
-            t.h_unmaps = [r for r in recs if r["pid"] == h and r["call"] == "munmap" and m["rpos"] < r["pos"] < nxt
-                          and _overlaps(r, base, ssz)]
+            hm_all = [r for r in recs if r["pid"] == h and r["call"] == "munmap" and m["rpos"] < r["pos"] < nxt
+                      and _overlaps(r, base, ssz)]
+            t.h_unmaps = [r for r in hm_all if "INJECTED" not in (r.get("note") or "")]
             whole = [r for r in t.h_unmaps if _hex(r["args"].split(",")[0]) == base and int(r["args"].split(",")[1]) == ssz]
             if whole:
                 live_stacks -= 1
+            elif len(hm_all) > len(t.h_unmaps):
+                # the spawner's own clean-up munmap was made to fail: the mapping stays by plan of the fault
+                info["planned_stack_leaks"] = info.get("planned_stack_leaks", 0) + 1
+                live_stacks -= 1
+                t.stack_known = False
     if cur < len(mmap_idx) and not (run.killed or info.get("timeout") or info.get("crash") or info.get("abort")):
         unattributed.append({"k": None, "what": "%d stack mmap record(s) of the owner belong to no spawn" % (len(mmap_idx) - cur)})
     for b in batches[-1:]:
